@@ -183,7 +183,7 @@ func degenerateModel(rng *rand.Rand) *openfgav1.AuthorizationModel {
 		if td == nil {
 			continue
 		}
-		switch rng.Intn(12) {
+		switch rng.Intn(14) {
 		case 0:
 			td.Metadata = nil
 		case 1:
@@ -243,6 +243,24 @@ func degenerateModel(rng *rand.Rand) *openfgav1.AuthorizationModel {
 			}
 		case 11:
 			m.TypeDefinitions = append(m.TypeDefinitions, nil, &openfgav1.TypeDefinition{})
+		case 12, 13:
+			// oneof cases that are present but empty: relation "" (what `"relation": ""` in JSON gives) or a
+			// nil wildcard, in the first or a later position of a restriction list
+			if td.Metadata != nil {
+				for _, rm := range td.Metadata.Relations {
+					if rm != nil {
+						ref := &openfgav1.RelationReference{Type: td.GetType(), RelationOrWildcard: &openfgav1.RelationReference_Relation{Relation: ""}}
+						if rng.Intn(4) == 0 {
+							ref.RelationOrWildcard = &openfgav1.RelationReference_Wildcard{}
+						}
+						if rng.Intn(2) == 0 {
+							rm.DirectlyRelatedUserTypes = append([]*openfgav1.RelationReference{ref}, rm.DirectlyRelatedUserTypes...)
+						} else {
+							rm.DirectlyRelatedUserTypes = append(rm.DirectlyRelatedUserTypes, ref)
+						}
+					}
+				}
+			}
 		}
 	}
 	for name, cd := range m.Conditions {
@@ -340,7 +358,7 @@ func init() {
 						c.Dist("inputs_without_syntax_errors")
 					}
 					if len(in) < 3000 {
-						dslCorr(c, "fuzz", in)
+						dslCorrScoped(c, "fuzz", in)
 					}
 				}
 				if err1 == nil && m1 != nil {
@@ -356,6 +374,25 @@ func init() {
 				}
 			case 3: // fga.mod
 				in := mutate(rng, mods[rng.Intn(len(mods))])
+				if rng.Intn(2) == 0 {
+					// structured: quoted entries built from path / percent-escape fragments, also ones that
+					// decode to fewer characters than they are written with
+					frag := []string{"%", "%4", "%41", "%2e", "%2E", "%2f", "%5c", "%25", "%7E", "%00", "%zz", ".", "..", "/", "\\", ":", "a", "C:", ".fga", "é", " ", ""}
+					in = "schema: '1.2'\ncontents:\n"
+					for k := 0; k < 1+rng.Intn(5); k++ {
+						e := ""
+						for j := 0; j < rng.Intn(4); j++ {
+							e += frag[rng.Intn(len(frag))]
+						}
+						q := "\""
+						if rng.Intn(2) == 0 && !strings.Contains(e, "'") {
+							q = "'"
+							e = strings.ReplaceAll(e, "\\\\", "\\")
+						}
+						in += "  - " + q + e + q + "\n"
+					}
+					c.Dist("structured_modfiles")
+				}
 				p, el, to := timed(c08Limit, func() { _, _ = transformer.TransformModFile(in) })
 				c08Report(c, "TransformModFile", in, p, el, to)
 			}
